@@ -58,3 +58,249 @@ func (fr *frame) statusReason(v value) string {
 }
 
 var _ = fmt.Sprint
+
+// ---- struct helpers ---------------------------------------------------------------
+
+func structOf(t types.Type) *types.Struct {
+	if p, ok := t.Underlying().(*types.Pointer); ok {
+		t = p.Elem()
+	}
+	s, ok := t.Underlying().(*types.Struct)
+	if !ok {
+		panic(engineAbort{"ENGINE", fmt.Sprintf("structOf: %v is not a struct", t)})
+	}
+	return s
+}
+
+func fieldIndex(t types.Type, name string) int {
+	s := structOf(t)
+	for i := 0; i < s.NumFields(); i++ {
+		if s.Field(i).Name() == name {
+			return i
+		}
+	}
+	return -1
+}
+
+func typeName(t types.Type) (pkg, name string) {
+	if p, ok := t.(*types.Pointer); ok {
+		t = p.Elem()
+	}
+	t = types.Unalias(t)
+	if n, ok := t.(*types.Named); ok {
+		if n.Obj().Pkg() != nil {
+			pkg = n.Obj().Pkg().Path()
+		}
+		return pkg, n.Obj().Name()
+	}
+	return "", ""
+}
+
+// objectMeta returns the ObjectMeta structure (and its type) embedded in an API object value.
+func objectMetaOf(itf iface) (structure, types.Type) {
+	p, ok := itf.v.(*value)
+	if !ok || p == nil {
+		panic(engineAbort{"ENGINE", "objectMetaOf: not a non-nil pointer"})
+	}
+	st := (*p).(structure)
+	idx := fieldIndex(itf.t, "ObjectMeta")
+	if idx < 0 {
+		panic(engineAbort{"UNSUPPORTED", fmt.Sprintf("objectMetaOf: %v has no ObjectMeta", itf.t)})
+	}
+	return st[idx].(structure), structOf(itf.t).Field(idx).Type()
+}
+
+func apiVersionOf(pkg string) string {
+	switch pkg {
+	case "github.com/DataDog/extendeddaemonset/api/v1alpha1":
+		return "datadoghq.com/v1alpha1"
+	case "k8s.io/api/core/v1":
+		return "v1"
+	case "k8s.io/api/apps/v1":
+		return "apps/v1"
+	}
+	return pkg
+}
+
+func init() {
+	registerK8s2()
+}
+
+func registerK8s2() {
+	intrinsics["sigs.k8s.io/controller-runtime/pkg/controller/controllerutil.SetControllerReference"] = setControllerReference
+	intrinsics["(k8s.io/apimachinery/pkg/conversion.Equalities).DeepEqual"] = func(fr *frame, a []value) value {
+		x, y := a[1].(iface), a[2].(iface)
+		if x.t == nil || y.t == nil {
+			return x.t == nil && y.t == nil
+		}
+		if !types.Identical(x.t, y.t) {
+			return false
+		}
+		return mkSym(fr.deepEq(x.t, x.v, y.v, 0), types.Bool)
+	}
+	intrinsics["(k8s.io/apimachinery/third_party/forked/golang/reflect.Equalities).DeepEqual"] = intrinsics["(k8s.io/apimachinery/pkg/conversion.Equalities).DeepEqual"]
+	// the fake API applies "replace metadata and spec"; the serialized patch is only logged by the callers
+	intrinsics["(*sigs.k8s.io/controller-runtime/pkg/client.mergeFromPatch).Data"] = func(fr *frame, a []value) value {
+		return tuple{bytesVal([]byte("{}")), iface{}}
+	}
+	intrinsics["k8s.io/apimachinery/pkg/util/validation.IsQualifiedName"] = func(fr *frame, a []value) value {
+		return strSliceOrNil(nativeIsQualifiedName(fr.i.ctx.concStr(a[0])))
+	}
+	intrinsics["k8s.io/apimachinery/pkg/util/validation.IsValidLabelValue"] = func(fr *frame, a []value) value {
+		return strSliceOrNil(nativeIsValidLabelValue(fr.i.ctx.concStr(a[0])))
+	}
+}
+
+func strSliceOrNil(ss []string) value {
+	if len(ss) == 0 {
+		return []value(nil)
+	}
+	return strSlice(ss)
+}
+
+func setControllerReference(fr *frame, a []value) value {
+	owner, obj := a[0].(iface), a[1].(iface)
+	if owner.t == nil || obj.t == nil {
+		fr.runtimePanic("runtime error: invalid memory address or nil pointer dereference (SetControllerReference on nil object)")
+	}
+	ometa, metaT := objectMetaOf(owner)
+	cmeta, _ := objectMetaOf(obj)
+	get := func(m structure, name string) value { return m[fieldIndex(metaT, name)] }
+	ownerNs := fr.i.ctx.concStr(get(ometa, "Namespace"))
+	objNs := fr.i.ctx.concStr(get(cmeta, "Namespace"))
+	if ownerNs != "" {
+		if objNs == "" {
+			return fr.i.errorString("cluster-scoped resource must not have a namespace-scoped owner, owner's namespace " + ownerNs)
+		}
+		if ownerNs != objNs {
+			return fr.i.errorString("cross-namespace owner references are disallowed, owner's namespace " + ownerNs + ", obj's namespace " + objNs)
+		}
+	}
+	pkg, kind := typeName(owner.t)
+	refT := fr.i.named("k8s.io/apimachinery/pkg/apis/meta/v1", "OwnerReference")
+	ref := zero(refT).(structure)
+	set := func(name string, v value) { ref[fieldIndex(refT, name)] = v }
+	bptr := func(b bool) value { var c value = b; return &c }
+	set("APIVersion", apiVersionOf(pkg))
+	set("Kind", kind)
+	set("Name", get(ometa, "Name"))
+	set("UID", get(ometa, "UID"))
+	set("Controller", bptr(true))
+	set("BlockOwnerDeletion", bptr(true))
+	oi := fieldIndex(metaT, "OwnerReferences")
+	refs, _ := cmeta[oi].([]value)
+	ctrlIdx := fieldIndex(refT, "Controller")
+	for k, r := range refs {
+		rs := r.(structure)
+		same := fr.i.ctx.concStr(rs[fieldIndex(refT, "Kind")]) == kind &&
+			fr.i.ctx.concStr(rs[fieldIndex(refT, "Name")]) == fr.i.ctx.concStr(get(ometa, "Name"))
+		if same {
+			refs[k] = ref
+			return iface{}
+		}
+		if cp, ok := rs[ctrlIdx].(*value); ok && cp != nil && fr.i.ctx.concBool(*cp) {
+			return fr.i.errorString("Object is already owned by another " + fr.i.ctx.concStr(rs[fieldIndex(refT, "Kind")]) + " controller " + fr.i.ctx.concStr(rs[fieldIndex(refT, "Name")]))
+		}
+	}
+	// write through the pointer: ObjectMeta is stored inside the object structure
+	p := obj.v.(*value)
+	st := (*p).(structure)
+	mi := fieldIndex(obj.t, "ObjectMeta")
+	m := st[mi].(structure)
+	m[oi] = append(append([]value{}, refs...), ref)
+	return iface{}
+}
+
+// deepEq: apimachinery's semantic DeepEqual over interpreter values (nil and empty
+// slices/maps are equal; metav1.Time by instant; resource.Quantity structurally).
+func (fr *frame) deepEq(t types.Type, a, b value, depth int) *Term {
+	if depth > 100 {
+		panic(engineAbort{"UNSUPPORTED", "DeepEqual: value too deep (cyclic?)"})
+	}
+	if pkg, name := typeName(t); pkg == "k8s.io/apimachinery/pkg/apis/meta/v1" && (name == "Time" || name == "MicroTime") {
+		if _, isPtr := t.(*types.Pointer); !isPtr {
+			return timeEq(a.(structure)[0], b.(structure)[0])
+		}
+	}
+	switch u := t.Underlying().(type) {
+	case *types.Basic:
+		return symEquals(t, a, b)
+	case *types.Pointer:
+		pa, pb := a.(*value), b.(*value)
+		if pa == nil || pb == nil {
+			return mkBool(pa == nil && pb == nil)
+		}
+		if pa == pb {
+			return tTrue
+		}
+		return fr.deepEq(u.Elem(), *pa, *pb, depth+1)
+	case *types.Struct:
+		sa, sb := a.(structure), b.(structure)
+		var cs []*Term
+		for i := 0; i < u.NumFields(); i++ {
+			c := fr.deepEq(u.Field(i).Type(), sa[i], sb[i], depth+1)
+			if c.Op == "bool" && !c.B {
+				return tFalse
+			}
+			cs = append(cs, c)
+		}
+		return mkAnd(cs...)
+	case *types.Slice:
+		xa, xb := a.([]value), b.([]value)
+		if len(xa) != len(xb) {
+			return tFalse
+		}
+		var cs []*Term
+		for i := range xa {
+			c := fr.deepEq(u.Elem(), xa[i], xb[i], depth+1)
+			if c.Op == "bool" && !c.B {
+				return tFalse
+			}
+			cs = append(cs, c)
+		}
+		return mkAnd(cs...)
+	case *types.Array:
+		xa, xb := a.(array), b.(array)
+		var cs []*Term
+		for i := range xa {
+			cs = append(cs, fr.deepEq(u.Elem(), xa[i], xb[i], depth+1))
+		}
+		return mkAnd(cs...)
+	case *types.Map:
+		ma, mb := a.(*omap), b.(*omap)
+		if ma.len() != mb.len() {
+			return tFalse
+		}
+		if ma.len() == 0 {
+			return tTrue
+		}
+		var cs []*Term
+		for _, e := range ma.entries {
+			if e.deleted {
+				continue
+			}
+			v2, ok := mb.lookup(e.key)
+			if !ok {
+				return tFalse
+			}
+			c := fr.deepEq(u.Elem(), e.val, v2, depth+1)
+			if c.Op == "bool" && !c.B {
+				return tFalse
+			}
+			cs = append(cs, c)
+		}
+		return mkAnd(cs...)
+	case *types.Interface:
+		ia, ib := a.(iface), b.(iface)
+		if ia.t == nil || ib.t == nil {
+			return mkBool(ia.t == nil && ib.t == nil)
+		}
+		if !types.Identical(ia.t, ib.t) {
+			return tFalse
+		}
+		return fr.deepEq(ia.t, ia.v, ib.v, depth+1)
+	case *types.Signature:
+		return tFalse
+	}
+	panic(engineAbort{"UNSUPPORTED", fmt.Sprintf("DeepEqual on %v", t)})
+}
